@@ -21,5 +21,7 @@ func removeWhitespace(data string) (string, bool, error) {
 		return r
 	}, data)
 
-	return transformedData, changed, nil
+	// strings.Map also rewrites every byte that is not valid UTF-8 to U+FFFD,
+	// so the value can differ from the input although no whitespace was dropped.
+	return transformedData, changed || transformedData != data, nil
 }
